@@ -15,7 +15,7 @@ def ser(v, sort=False):
         if -2 ** 53 < v < 2 ** 53:
             return v
 
-        return {'i': str(v)}
+        return {'ih': hex(v)}
 
     if isinstance(v, float):
         if math.isnan(v):
@@ -66,8 +66,8 @@ def deser(j):
         return [deser(x) for x in j]
 
     if isinstance(j, dict):
-        if 'i' in j:
-            return int(j['i'])
+        if 'ih' in j:
+            return int(j['ih'], 16)
 
         if 'f' in j:
             return float(j['f'])
